@@ -961,4 +961,74 @@ theorem retention_ok (cfg : NCfg) (hall : cfg.rangeAll = true) (hguard : cfg.rep
         · simp [hc]
       simp [this]
 
+/-- Every "delivered" report among the outputs is accompanied by a hand-over of that bundle. -/
+def ReportsJustified (outs : List Out) : Prop :=
+  ∀ b, Out.report b ∈ outs → ∃ r, Out.handed r b ∈ outs
+
+theorem reportsJustified_append {o₁ o₂ : List Out} (h₁ : ReportsJustified o₁) (h₂ : ReportsJustified o₂) :
+    ReportsJustified (o₁ ++ o₂) := by
+  intro b hb
+  simp only [List.mem_append] at hb ⊢
+  rcases hb with hb | hb
+  · obtain ⟨r, hr⟩ := h₁ b hb; exact ⟨r, Or.inl hr⟩
+  · obtain ⟨r, hr⟩ := h₂ b hb; exact ⟨r, Or.inr hr⟩
+
+theorem dispatching_reportsJustified (cfg : NCfg) (hall : cfg.rangeAll = true)
+    (hguard : cfg.reportGuard = true) (n : Node) (b : Bundle) (cons : List Constraint) :
+    ReportsJustified (dispatching cfg n b cons).2.1 := by
+  intro b' hb'
+  unfold dispatching at hb' ⊢
+  split at hb'
+  · rename_i hloc
+    simp only [hloc, if_true]
+    -- only `b` itself can be reported
+    have hb : b' = b := by
+      rcases localDelivery_outs cfg n b cons _ hb' with h | h | ⟨r, x, h⟩
+      · cases h
+      · cases h; rfl
+      · cases h
+    subst hb
+    have h := report_only_after_handover cfg hall hguard n b' cons
+    simp only [ReportOnlyAfterHandover, Bool.or_eq_true, Bool.not_eq_true', List.any_eq_true] at h
+    rcases h with h | ⟨o, ho, hh⟩
+    · have : (localDelivery cfg n b' cons).2.1.contains (Out.report b') = true := by
+        simpa using hb'
+      rw [this] at h; cases h
+    · cases o with
+      | handed r x =>
+        simp only [Out.isHanded, beq_iff_eq] at hh
+        subst hh; exact ⟨r, ho⟩
+      | _ => simp [Out.isHanded] at hh
+  · simp at hb'
+
+theorem receive_reportsJustified (cfg : NCfg) (hall : cfg.rangeAll = true)
+    (hguard : cfg.reportGuard = true) (n : Node) (b : Bundle) :
+    ReportsJustified (receive cfg n b).2 := by
+  unfold receive
+  split
+  · intro b' hb'; cases hb'
+  · exact dispatching_reportsJustified cfg hall hguard n b [.dispatchPending]
+
+theorem tick_reportsJustified (cfg : NCfg) (hall : cfg.rangeAll = true)
+    (hguard : cfg.reportGuard = true) (n : Node) : ReportsJustified (tick cfg n).2 := by
+  unfold tick
+  suffices h : ∀ (l : List (Nat × Bundle × List Constraint)) (acc : Node × List Out),
+      ReportsJustified acc.2 →
+      ReportsJustified (l.foldl (fun acc e =>
+        if pendingC e.2.2 then
+          ((dispatching cfg acc.1 e.2.1 e.2.2).1.sync e.2.1 (dispatching cfg acc.1 e.2.1 e.2.2).2.2,
+            acc.2 ++ (dispatching cfg acc.1 e.2.1 e.2.2).2.1)
+        else acc) acc).2 from
+    h n.store (n, []) (by intro b hb; cases hb)
+  intro l
+  induction l with
+  | nil => intro acc h; exact h
+  | cons e t ih =>
+    intro acc h
+    simp only [List.foldl_cons]
+    apply ih
+    split
+    · exact reportsJustified_append h (dispatching_reportsJustified cfg hall hguard _ _ _)
+    · exact h
+
 end Dtn7.Delivery.Lemmas
